@@ -25,6 +25,7 @@ class AnalysisError(Exception):
 class StepHooks(Hooks):
     def __init__(self, fn_body, flag="Continue", init_flag="Continue", solout_present=True, accept="then"):
         self.accept = accept
+        self.forced = {}
         self.flag = flag
         self.init_flag = init_flag
         self.solout_present = solout_present
@@ -51,8 +52,20 @@ class StepHooks(Hooks):
             cands.sort(key=lambda t: -t[0])
             self.accept_if = cands[0][1]
 
+    # ---- trial-run rollback (inner loops are interpreted to a fix-point)
+    LISTS = ("stages", "solout_calls", "interp_calls", "divs")
+
+    def snapshot(self):
+        return {k: len(getattr(self, k)) for k in self.LISTS}
+
+    def restore(self, snap):
+        for k, n in snap.items():
+            del getattr(self, k)[n:]
+
     # ---- selectors
     def select_if(self, sx, node, cond):
+        if id(node) in self.forced:
+            return self.forced[id(node)]
         if node is self.accept_if:
             return self.accept
         c = node["cond"]
@@ -191,9 +204,10 @@ class StepHooks(Hooks):
             self.breaks = breaks
 
 
-def analyse_solve(facts, fn_def, flag="Continue", init_flag="Continue", solout_present=True, accept="then"):
+def analyse_solve(facts, fn_def, flag="Continue", init_flag="Continue", solout_present=True, accept="then", forced=None):
     body = facts.body(fn_def)
     hk = StepHooks(body["body"], flag, init_flag, solout_present, accept)
+    hk.forced = dict(forced or {})
     sx = SymExec(facts, fn_def, hk)
     sx.bind_params()
     # log every float division inside component loops (tolerance-scaled vectors)
@@ -209,6 +223,28 @@ def analyse_solve(facts, fn_def, flag="Continue", init_flag="Continue", solout_p
     if hk.main_loop is None:
         raise AnalysisError("no main loop found in %s" % fn_def)
     return sx, hk
+
+
+def analyse_variants(facts, fn_def, max_split=4, **kw):
+    """Path variants: `if`s inside the main loop whose join would merge >= 2 scalars (losing
+    relations such as x_new = x + h) are split instead of joined. Returns list of (tag, sx, hk)."""
+    sx, hk = analyse_solve(facts, fn_def, **kw)
+    cands = []
+    for ev in sx.trace:
+        if ev["kind"] == "multijoin" and hk.main_loop is not None and tast.contains(hk.main_loop, lambda x: x is ev["node"]):
+            if not any(c is ev["node"] for c in cands):
+                cands.append(ev["node"])
+    cands = cands[:max_split]
+    if not cands:
+        return [("join", sx, hk)]
+    out = []
+    import itertools
+    for combo in itertools.product(("then", "else"), repeat=len(cands)):
+        forced = {id(n): b for n, b in zip(cands, combo)}
+        tag = ",".join("%s@%s" % (b, n.get("sp", "?").split(":")[-2]) for n, b in zip(cands, combo))
+        s2, h2 = analyse_solve(facts, fn_def, forced=forced, **kw)
+        out.append((tag, s2, h2))
+    return out
 
 
 def step_atom(hk, latch_state):
